@@ -52,6 +52,9 @@ is_822_local (const char *start, const char *end)
              */
             if (!qpair && ISCNTRL(ch))
                 return inverse(EEAV_LPART_CTRL_CHAR);
+            /* a quoted-string is a whole word: only '.' may follow it */
+            if (cp > start && cp[-1] == '"' && ch != '.')
+                return inverse(EEAV_LPART_MISPLACED_QUOTE);
             switch (ch) {
             case '"': {
                 /* quote-strings are allowed at the start
